@@ -380,7 +380,46 @@ def gen_mask():
     digest.append("Mask: " + "; ".join(info) + f"; rhumb ALL={msk['ALL']}")
 
 
-GENERATORS = [gen_math, gen_gridcodes, gen_utm, gen_geoid, gen_mask]
+def func_array(txt, func_re, arr="coeff"):
+    """first `arr[] = {...}` inside the function whose header matches func_re"""
+    m = re.search(func_re, txt)
+    if not m:
+        raise Missing(f"function /{func_re}/ not found")
+    sub = txt[m.end():]
+    body = brace_array(sub, r"\b" + arr + r"\s*\[\s*\]\s*=\s*\{")
+    return [ceval(x, {}, rational=True) for x in split_top(body)]
+
+
+def lean_ratlist(vals):
+    out = []
+    for v in vals:
+        fr = Fraction(v)
+        out.append(f"({fr.numerator} : Rat)" if fr.denominator == 1 else f"(({fr.numerator} : Rat) / {fr.denominator})")
+    return "[" + ", ".join(out) + "]"
+
+
+def gen_geodseries():
+    txt = preprocess("src/Geodesic.cpp")
+    body = "namespace GeoVerif.Gen.GeodSeries\n"
+    sizes = {}
+    for name, fre in [("A1m1f", r"Geodesic::A1m1f\s*\("), ("C1f", r"void\s+Geodesic::C1f\s*\("), ("C1pf", r"void\s+Geodesic::C1pf\s*\("),
+                      ("A2m1f", r"Geodesic::A2m1f\s*\("), ("C2f", r"void\s+Geodesic::C2f\s*\("), ("A3coeff", r"void\s+Geodesic::A3coeff\s*\("),
+                      ("C3coeff", r"void\s+Geodesic::C3coeff\s*\("), ("C4coeff", r"void\s+Geodesic::C4coeff\s*\(")]:
+        vals = func_array(txt, fre)
+        sizes[name] = len(vals)
+        body += f"def {name} : List Rat := {lean_ratlist(vals)}\n"
+    # the order N of the active #if branch is determined by the table size (N^2 + 7N - 2 floor(N/2))/4
+    order = [N for N in range(1, 12) if (N * N + 7 * N - 2 * (N // 2)) // 4 == sizes["C1f"]]
+    if len(order) != 1:
+        raise Missing("cannot determine GEOGRAPHICLIB_GEODESIC_ORDER from the size of the C1f table")
+    order = order[0]
+    body += f"def order : Nat := {order}\n"
+    body += "end GeoVerif.Gen.GeodSeries\n"
+    write("GeodSeries", body)
+    digest.append(f"GeodSeries: order={order} sizes={sizes}")
+
+
+GENERATORS = [gen_math, gen_gridcodes, gen_utm, gen_geoid, gen_mask, gen_geodseries]
 
 
 def main():
